@@ -7,8 +7,10 @@ import Cellml.Tie.SingTrav
     * `generatePiecewise_tie`, `generatePiecewise_eval` (SingPw): `_generate_piecewise` = `C12.generate`, and the `pw`
       node built by `C12.wrapWin` evaluates to it;
     * `removeSingularities_tie`, `fixOf_pyRemoveSing` (SingFix): `_remove_singularities` = `C12.removeSing`;
-    * `fixExprParts_tie_partial`, `fixParts_fixpoint_partial` (SingFix): `_fix_expr_parts` = body of `C12.fixParts`
-      (all branches but `Add`);
+    * `fixExprParts_tie`, `fixParts_fixpoint` (SingFixAdd; the `_partial` versions of SingFix are the non-`Add`
+      branches): `_fix_expr_parts` = body of `C12.fixParts`, every branch;
+    * `isNegativePower_spec`, `solveReal_tie`, `checkUMatch_spec`, `onTopLoop_tie` (SingDet): decision logic of the
+      helpers and of the top-candidate loop of `_get_singularity` = `C12.onTop`;
     * `removeFixable_tie` (SingTrav): `remove_fixable_singularities` = `C12.traverse`, units of the re-created
       quantities = `C18.creatorRef .fixed _ .singQuantity`;
     * below: the traversal generated from the source, run with the `_remove_singularities` generated from the source,
